@@ -84,7 +84,8 @@ request_module(InterrogateModuleDef *def) {
   if (def->num_unique_names > 0 && def->library_name != nullptr) {
     // Define a lookup by hash for this module, mainly so we can look up
     // functions by their unique names.
-    _modules_by_hash[def->library_hash_name] = def;
+    // The hash name is short, so two libraries may well share one.
+    _modules_by_hash.insert(ModulesByHash::value_type(def->library_hash_name, def));
   }
 
   if (def->database_filename != nullptr) {
@@ -384,20 +385,20 @@ get_wrapper_by_unique_name(const string &unique_name) {
   string library_hash_name = unique_name.substr(0, 4);
   string wrapper_hash_name = unique_name.substr(4);
 
-  // Is the library_name defined?
-  ModulesByHash::const_iterator mi;
-  mi = _modules_by_hash.find(library_hash_name);
-  if (mi == _modules_by_hash.end()) {
-    return 0;
-  }
+  // Is the library_name defined?  Look in every module that goes by it.
+  std::pair<ModulesByHash::const_iterator, ModulesByHash::const_iterator> range =
+    _modules_by_hash.equal_range(library_hash_name);
 
-  InterrogateModuleDef *def = (*mi).second;
-  int index_offset =
-    binary_search_wrapper_hash(def->unique_names,
-                               def->unique_names + def->num_unique_names,
-                               wrapper_hash_name);
-  if (index_offset >= 0) {
-    return def->first_index + index_offset;
+  ModulesByHash::const_iterator mi;
+  for (mi = range.first; mi != range.second; ++mi) {
+    InterrogateModuleDef *def = (*mi).second;
+    int index_offset =
+      binary_search_wrapper_hash(def->unique_names,
+                                 def->unique_names + def->num_unique_names,
+                                 wrapper_hash_name);
+    if (index_offset >= 0) {
+      return def->first_index + index_offset;
+    }
   }
 
   return 0;
